@@ -5,11 +5,11 @@ Local Open Scope N_scope.
 
 (* ---- the state model rides on the sink model: result and delivered bytes of [save_with] are those
         of the plain run over pre ++ post ---- *)
-Lemma save_with_rd wa mode ids pre post st s :
-  let '(r, d, _) := save_with wa mode ids pre post st s in
+Lemma save_with_rd wa mode ids top pre post st s :
+  let '(r, d, _) := save_with wa mode ids top pre post st s in
   (r, d) = rd (run wa (pre ++ post) s).
 Proof.
-  unfold save_with, run, rd. rewrite run_cw_app.
+  unfold save_with, run, rd. cbv zeta. rewrite run_cw_app.
   destruct (run_cw wa pre _) as [[r1 d1] c1]. destruct r1; [|reflexivity].
   destruct (run_cw wa post c1) as [[r2 d2] c2]. reflexivity.
 Qed.
@@ -18,15 +18,16 @@ Section Residue.
   Variable wa : script -> bytes -> wres * bytes * script.
   Hypothesis wa_ok : wa_sound wa.
 
-  (* T9: a save that fails leaves the document either untouched or exactly as a successful save
+  (* T9: a save that fails leaves the document either untouched -- up to the raise of max_id to the
+     largest object number, which every plain save begins with -- or exactly as a successful save
      leaves it; which of the two is decided by whether the failure came before or after the
      mutation point, i.e. by how many bytes were delivered.  A successful save always mutates. *)
-  Theorem failed_save_residue mode ids pre post st s r d st' :
-    save_with wa mode ids pre post st s = (r, d, st') ->
-    ((length d < length (concat pre))%nat /\ st' = st /\ r <> WOk) \/
-    ((length (concat pre) <= length d)%nat /\ st' = mutate mode ids st).
+  Theorem failed_save_residue mode ids top pre post st s r d st' :
+    save_with wa mode ids top pre post st s = (r, d, st') ->
+    ((length d < length (concat pre))%nat /\ st' = raise_max_id top st /\ r <> WOk) \/
+    ((length (concat pre) <= length d)%nat /\ st' = mutate mode ids (raise_max_id top st)).
   Proof.
-    unfold save_with. destruct (run_cw wa pre _) as [[r1 d1] c1] eqn:E1.
+    unfold save_with. cbv zeta. destruct (run_cw wa pre _) as [[r1 d1] c1] eqn:E1.
     destruct (run_cw_sound wa wa_ok _ _ _ _ _ E1) as [rest [Hc [Hok Herr]]].
     destruct r1 as [|e1].
     - destruct (run_cw wa post c1) as [[r2 d2] c2]. intro H. injection H as <- <- <-.
@@ -35,10 +36,10 @@ Section Residue.
       rewrite Hc, app_length. destruct rest; [congruence|]. cbn [length]. repeat split; [lia | discriminate].
   Qed.
 
-  Corollary ok_save_mutates mode ids pre post st s d st' :
-    save_with wa mode ids pre post st s = (WOk, d, st') -> st' = mutate mode ids st.
+  Corollary ok_save_mutates mode ids top pre post st s d st' :
+    save_with wa mode ids top pre post st s = (WOk, d, st') -> st' = mutate mode ids (raise_max_id top st).
   Proof.
-    intro H. destruct (failed_save_residue _ _ _ _ _ _ _ _ _ H) as [[_ [_ Hr]] | [_ Hm]]; [congruence | exact Hm].
+    intro H. destruct (failed_save_residue _ _ _ _ _ _ _ _ _ _ H) as [[_ [_ Hr]] | [_ Hm]]; [congruence | exact Hm].
   Qed.
 End Residue.
 
@@ -67,6 +68,25 @@ Proof.
   - destruct (bytes_eqb k0 k) eqn:E; cbn [dict_get]; rewrite E; [reflexivity | exact IH].
 Qed.
 
+(* ---- the raise of max_id ---- *)
+Definition top_le (top : option N) (st : sstate) : Prop :=
+  match top with None => True | Some t => t <= s_max_id st end.
+
+Lemma raise_top_le top st : top_le top (raise_max_id top st).
+Proof. destruct top as [t|]; cbn; [lia | exact I]. Qed.
+
+(* once max_id bounds the object numbers the raise does nothing: in particular it is idempotent *)
+Lemma raise_noop top st : top_le top st -> raise_max_id top st = st.
+Proof.
+  destruct top as [t|]; cbn; [|reflexivity]. intro H. destruct st as [m tr]. cbn in *. f_equal. lia.
+Qed.
+
+Theorem raise_idem top st : raise_max_id top (raise_max_id top st) = raise_max_id top st.
+Proof. apply raise_noop, raise_top_le. Qed.
+
+Lemma top_le_mutate mode ids top st : top_le top st -> top_le top (mutate mode ids st).
+Proof. destruct top as [t|]; [|trivial]. destruct mode; cbn; lia. Qed.
+
 (* ---- table format ---- *)
 (* T10: the table path's mutation is idempotent and touches nothing but Size: after any number of
    failed saves the document is in the state ONE successful save would have produced *)
@@ -88,12 +108,18 @@ Qed.
 Section ResaveTable.
   Variable pre_of : N -> list bytes.          (* header, mark, objects, xref table *)
   Variable post_of : sstate -> list bytes.    (* "trailer\n", the trailer dictionary, startxref *)
-  Definition table_calls (st : sstate) : list bytes := pre_of (s_max_id st) ++ post_of (mutate_table st).
+  Variable top : option N.                    (* largest object number (plain save) *)
+  Definition table_calls (st : sstate) : list bytes :=
+    let st0 := raise_max_id top st in pre_of (s_max_id st0) ++ post_of (mutate_table st0).
 
+  (* st' = what a failed save leaves behind (failed_save_residue) *)
   Theorem resave_table_same_calls st st' :
-    st' = st \/ st' = mutate_table st -> table_calls st' = table_calls st.
+    st' = raise_max_id top st \/ st' = mutate_table (raise_max_id top st) -> table_calls st' = table_calls st.
   Proof.
-    intros [-> | ->]; [reflexivity|]. unfold table_calls. rewrite mutate_table_idem. reflexivity.
+    unfold table_calls. cbv zeta. intros [-> | ->].
+    - rewrite raise_idem. reflexivity.
+    - rewrite (raise_noop top (mutate_table _)) by (apply (top_le_mutate XTable []), raise_top_le).
+      rewrite mutate_table_idem. reflexivity.
   Qed.
 End ResaveTable.
 
@@ -107,6 +133,16 @@ Theorem stream_residue_after_n ids st n :
   s_max_id (iter n (mutate_stream ids) st) = s_max_id st + N.of_nat n.
 Proof.
   induction n as [|n IH]; cbn [iter]; [lia|]. rewrite mutate_stream_max_id, IH. lia.
+Qed.
+
+(* the same with the raise each save begins with: from the first save on it is the identity *)
+Theorem stream_residue_after_n_raised ids top st n :
+  iter n (fun x => mutate_stream ids (raise_max_id top x)) (raise_max_id top st) =
+  iter n (mutate_stream ids) (raise_max_id top st).
+Proof.
+  assert (G : forall n, top_le top (iter n (mutate_stream ids) (raise_max_id top st))).
+  { intro k. induction k as [|k IH]; cbn [iter]; [apply raise_top_le | exact (top_le_mutate XStream ids top _ IH)]. }
+  induction n as [|n IH]; cbn [iter]; [reflexivity|]. rewrite IH, (raise_noop top _ (G n)). reflexivity.
 Qed.
 
 (* everything written before the mutation point is independent of the document state, so a
@@ -160,8 +196,11 @@ Example ex_mutate_stream :
                    (K_Index, OArr [OInt 1; OInt 2; OInt 4; OInt 2]); (K_Length, OInt 28)] |}.
 Proof. vm_compute. reflexivity. Qed.
 Example ex_residue :
-  save_with qwrite_all XStream [1; 2; 4] [bs "%PDF-1.5"; bs "objects"] [bs "xrefstream"] ex_state [Accept 9; Fail EStorageFull]
+  save_with qwrite_all XStream [1; 2; 4] (Some 4) [bs "%PDF-1.5"; bs "objects"] [bs "xrefstream"] ex_state [Accept 9; Fail EStorageFull]
   = (WErr EStorageFull, bs "%PDF-1.5o", ex_state) /\
-  save_with write_all XStream [1; 2; 4] [bs "%PDF-1.5"; bs "objects"] [bs "xrefstream"] ex_state [Accept 8; Accept 7; Accept 3; Zero]
-  = (WErr EWriteZero, bs "%PDF-1.5objectsxre", mutate_stream [1; 2; 4] ex_state).
-Proof. split; vm_compute; reflexivity. Qed.
+  save_with write_all XStream [1; 2; 4] (Some 4) [bs "%PDF-1.5"; bs "objects"] [bs "xrefstream"] ex_state [Accept 8; Accept 7; Accept 3; Zero]
+  = (WErr EWriteZero, bs "%PDF-1.5objectsxre", mutate_stream [1; 2; 4] ex_state) /\
+  (* an object above max_id: the raise survives a save that fails at the first byte *)
+  save_with write_all XTable [1; 2; 9] (Some 9) [bs "%PDF-1.5"; bs "objects"] [bs "trailer"] ex_state [Fail EBrokenPipe]
+  = (WErr EBrokenPipe, [], {| s_max_id := 9; s_trailer := s_trailer ex_state |}).
+Proof. repeat split; vm_compute; reflexivity. Qed.
